@@ -12,6 +12,10 @@ def run(c):
     import obl_context
     c.only_clauses = {"context_keeps_its_own_copy_of_the_configuration"}
     obl_context.obl_context(c, thorough=False, budget_s=600)
+    # "leaks nothing": the one place the library keeps writing files - the save of a learned choice - forgets no owning value
+    import obl_phonetic
+    c.only_clauses = {"nothing_owned_is_forgotten"}
+    obl_phonetic.obl_userfiles(c, budget_s=600)
     c.only_clauses = None
     c.assume("CString::from_raw is stubbed by the same ownership transfer with the length found by a loop (Kani cannot call the foreign strlen); "
              "the counting variant of the stub is how 'taken back exactly once' is observed; the Bijoy encoder is an injective tagging stub; "
